@@ -171,6 +171,9 @@ func runC14(c *Ctx) {
 	R := c.R
 	R.Rule = "operation sequences over {ChainBuffer append of k bytes, ChainWrite of caller slice (empty or not), in-place overwrite of a chained slice before flush, Flush to accept-all / fail-after-n sink}: exhaustive up to a bound over a small alphabet, then random up to length 200 with buffer growth across cut points; non-trivial = contains a flush; distinct by op string. Plus WriteColumn-vs-EncodeColumn path equivalence on sampled columns."
 	r := c.Rng
+	// the client's own use of the writer: large compressed frames and zero-copy columns chained, then a further block
+	// encoded before the flush — what arrives must be what was chained when it was chained
+	defer c02LargeBlocks(c, r.Fork(), "C14")
 	// exhaustive over a small alphabet
 	alpha := []c14Op{
 		{kind: "a", bs: []byte{0xA1}}, {kind: "a", bs: []byte{0xB1, 0xB2, 0xB3, 0xB4, 0xB5, 0xB6, 0xB7, 0xB8, 0xB9}},
